@@ -313,6 +313,15 @@ func (s *Scheme) runDKG(ctx context.Context, membership *membership, dkgProtocol
 			allowedList: universalIDsToUintMap(universalIds),
 		}
 
+		// The protocol instance is initialised before it is registered: once registered, messages may reach it at any moment
+		s.Logger.Debugf("Running keygen with parties %v", members)
+
+		if err := s.initializeDKG(dkgProtocolInstance, t, UIntsToUniversalIDs(members), parties, membership); err != nil {
+			s.Logger.Errorf("Failed initializing DKG: %v", err)
+			resultChan <- mpcResult{err: err}
+			return
+		}
+
 		s.lock.Lock()
 		if ctx.Err() != nil {
 			// The key generation this callback belongs to has already returned: register nothing
@@ -326,14 +335,6 @@ func (s *Scheme) runDKG(ctx context.Context, membership *membership, dkgProtocol
 
 		if rbcExisted {
 			panic("Programming error: we shouldn't have gotten to a situation with two concurrent signing with the same topic")
-		}
-
-		s.Logger.Debugf("Running keygen with parties %v", members)
-
-		if err := s.initializeDKG(dkgProtocolInstance, t, UIntsToUniversalIDs(members), parties, membership); err != nil {
-			s.Logger.Errorf("Failed initializing DKG: %v", err)
-			resultChan <- mpcResult{err: err}
-			return
 		}
 
 		// We use a synchronizer to synchronize on the hash of the parties, to ensure that all parties that participate
